@@ -905,7 +905,7 @@ class Interp(object):
             return [(bool(v[1]), st)]
         if t in ('tup',):
             return [(len(v) > 1, st)]
-        if t in ('trees', 'member', 'status', 'info', 'finfo', 'exc', 'k', 'comp', 'compitem', 'self', 'data', 'symtab', 'exccls'):
+        if t in ('trees', 'member', 'status', 'info', 'finfo', 'exc', 'k', 'comp', 'compitem', 'self', 'symtab', 'exccls'):
             return [(True, st)]
         s2 = dict(st)
         return [(True, st), (False, s2)]
